@@ -10,7 +10,8 @@
 (*                the library's ExportOptions value),                      *)
 (*      ret   |-> "ok" | "err" | "panic",                                  *)
 (*      src   |-> projection of the exported document (its saved bytes     *)
-(*                read by the independent reader),                         *)
+(*                read by the independent reader; its blocks also say      *)
+(*                whether they carry numbering properties: np),            *)
 (*      exp   |-> projection of the Markdown by the reference Markdown     *)
 (*                reader (CommonMark + GFM),                               *)
 (*      conv  |-> "ok" | "err" | "panic"  converting the Markdown back,    *)
@@ -41,6 +42,15 @@ InBody(bs) == [i \in 1..Len(bs) |-> InBlk(bs[i])]
 
 Clamp(obs) == [i \in 1..Len(obs) |-> [obs[i] EXCEPT !.lvl = IF @ > 6 THEN 6 ELSE @]]
 
+\* the paragraphs of the saved document carry numbering properties exactly where the body says so
+NumBuilt(B, src) ==
+  LET ps == SelectSeq(src, LAMBDA x : x.k # "tbl")
+      bs == SelectSeq(B, LAMBDA x : x.k # "tbl")
+  IN Len(ps) = Len(bs) /\ \A i \in 1..Len(bs) : ps[i].np = (bs[i].k = "li" \/ bs[i].a # "")
+
+\* a paragraph of the saved document without a word, whatever its style, is a block that shows nothing
+SrcSeen(src) == SelectSeq(src, LAMBDA x : x.k = "tbl" \/ OWords(x) # <<>>)
+
 \* [ws, built]
 ExportJudge(e, c) ==
   LET B == InBody(e.body)
@@ -48,7 +58,7 @@ ExportJudge(e, c) ==
       o == after.opts
       W(ph, x) == [kind |-> <<ph, x.fld>>, ks |-> x.ks, case |-> c]
       mach == IF e.eff # o THEN {[kind |-> <<"MACH", "opts">>, ks |-> {}, case |-> c]} ELSE {}
-      built == e.ret # "ok" \/ Judge(B, [o EXCEPT !.gfm = TRUE], Clamp(e.src), "exp") = {}
+      built == e.ret # "ok" \/ (Judge(B, [o EXCEPT !.gfm = TRUE], Clamp(SrcSeen(e.src)), "exp") = {} /\ NumBuilt(B, e.src))
       ret == {W("exp", x) : x \in ViolRet(e.ret)}
       ex == IF e.ret = "ok" /\ built THEN {W("exp", x) : x \in Judge(B, o, e.exp, "exp")} ELSE {}
       fx == IF e.ret # "ok" \/ ~built THEN {}
